@@ -282,6 +282,8 @@ def _run_shard(shard, pendulum):
                 xd = pendulum.Date(y, m, d)
                 xt = pendulum.DateTime(y, m, d, 13, 30, 15, 5, tzinfo=pendulum.UTC)
                 xn = pendulum.DateTime(y, m, d, 23, 59, 59, 999999)
+                fo = (19800, -10800, 3600)[m % 3]
+                xo = pendulum.DateTime(y, m, d, 6, 45, 0, 999, tzinfo=_tz(pendulum, fo))
                 for op, unit, wd, nth, keep in menu:
                     if (unit == "quarter" and not q_ok) or (unit == "year" and not y_ok):
                         continue
@@ -290,6 +292,9 @@ def _run_shard(shard, pendulum):
                     check_op(acc, pendulum, "UTC", xt, (y, m, d, 13, 30, 15, 5), op, unit, wd, nth, keep)
                     if unit is None or nth in (None, 1, 5, 14, 53):
                         check_op(acc, pendulum, None, xn, (y, m, d, 23, 59, 59, 999999), op, unit, wd, nth, keep)
+                    # a pendulum fixed-offset zone (its name is not a tz database key)
+                    if full and (unit in ("quarter", "year") or nth in (None, 1, 5)) and (wd is None or (wd + d) % 2 == 0):
+                        check_op(acc, pendulum, fo, xo, (y, m, d, 6, 45, 0, 999), op, unit, wd, nth, keep)
         acc.sample({"month": list(shard["months"][0]), "ops": ["next", "previous", "first_of", "last_of", "nth_of"],
                     "receivers": ["Date", "DateTime(UTC)", "naive DateTime"]})
     elif k == "zones":
